@@ -310,6 +310,9 @@ func (r Stack) Swap(i, j int) {
 }
 
 func (r *stack) swap(i, j int) {
+	r.lock()
+	defer r.unlock()
+
 	// both positions must address an existing user slice
 	if ok := 0 <= i && i < r.ulen(); !ok {
 		return
@@ -319,9 +322,6 @@ func (r *stack) swap(i, j int) {
 
 	i++
 	j++
-
-	r.lock()
-	defer r.unlock()
 
 	(*r)[i], (*r)[j] = (*r)[j], (*r)[i]
 }
@@ -748,6 +748,9 @@ func (r Stack) Insert(x any, left int) (ok bool) {
 insert is a private method called by [Stack.Insert].
 */
 func (r *stack) insert(x any, left int) (ok bool) {
+	r.lock()
+	defer r.unlock()
+
 	// note the len before we start
 	var u1 int = r.ulen()
 
@@ -757,9 +760,6 @@ func (r *stack) insert(x any, left int) (ok bool) {
 		//err := errorf("failed: capacity violation")
 		return
 	}
-
-	r.lock()
-	defer r.unlock()
 
 	cfg, _ := r.config()
 
@@ -880,6 +880,9 @@ remove is a private method called by [Stack.Remove].
 */
 func (r *stack) remove(idx int) (slice any, ok bool) {
 
+	r.lock()
+	defer r.unlock()
+
 	var found bool
 	var index int
 	if slice, index, found = r.index(idx); found {
@@ -893,9 +896,6 @@ func (r *stack) remove(idx int) (slice any, ok bool) {
 
 		var R stack = make(stack, 0)
 		R = append(R, cfg)
-
-		r.lock()
-		defer r.unlock()
 
 		// Gather what we want to keep.
 		for i := 1; i < r.len(); i++ {
